@@ -8,6 +8,8 @@
 //                 itself holds) is cut off by an alarm after 2 s and answered "<op> HANG"; the handle is abandoned.
 //   raw <len> <seed>  (handle closed) the data file is written outside the library: len pattern bytes
 //   openro <initial_size> <maxoff> <policy...>  open read-only (omode = IWFS_OREAD); afterwards only read/state/probe/syncmm/close
+//   rowrites <0|1>  1: a read-only handle also gets addmm/rmmm/write/copy (a write through a PROT_READ window must be refused)
+//   vmkb          address space of the harness process in KiB (harness only; a refused add_mmap must not keep its mapping)
 //   the plain file underneath (iwfile.c), on a second path <path>.raw:
 //   fopen <omode> <lockmode> | fwrite <off> <hex> | fread <off> <len> | fcopy <off> <siz> <noff> | fsync | fstate | fclose
 //   fraw <len> <seed> | frm (unlink) | fhold <0|1> (the harness itself holds an exclusive flock on <path>.raw through its own fd)
@@ -70,7 +72,7 @@ static void onsig(int sig) {
 }
 
 static IWFS_EXT f;
-static int is_open, poisoned, use_locks_next, ro_mode;
+static int is_open, poisoned, use_locks_next, ro_mode, ro_writes;
 static const char *path;
 static IWFS_FILE ff;
 static int ff_open, hold_fd = -1;
@@ -199,6 +201,16 @@ int main(int argc, char **argv) {
       tail();
       continue;
     }
+    if (!strcmp(op, "rowrites") && n >= 2) {
+      ro_writes = atoi(tv[1]) != 0;
+      printf("rowrites OK");
+      tail();
+      continue;
+    }
+    if (!strcmp(op, "vmkb")) {
+      printf("vmkb %lld\n", vmsize() / 1024);
+      continue;
+    }
     if (!strcmp(op, "raw") && n >= 3) {
       if (is_open && !poisoned) { printf("raw BUSY"); tail(); continue; }
       int rci = rawfile(path, strtoll(tv[1], 0, 10), strtoll(tv[2], 0, 10));
@@ -321,7 +333,8 @@ int main(int argc, char **argv) {
     }
     if (poisoned) { printf("%s POISONED\n", op); continue; }
     if (!is_open) { printf("%s NOTOPEN\n", op); continue; }
-    if (ro_mode && strcmp(op, "read") && strcmp(op, "state") && strcmp(op, "probe") && strcmp(op, "syncmm") && strcmp(op, "close")) {
+    if (  ro_mode && strcmp(op, "read") && strcmp(op, "state") && strcmp(op, "probe") && strcmp(op, "syncmm") && strcmp(op, "close")
+       && !(ro_writes && (!strcmp(op, "addmm") || !strcmp(op, "rmmm") || !strcmp(op, "write") || !strcmp(op, "copy")))) {
       printf("%s ROMODE", op);
       tail();
       continue;
